@@ -1,8 +1,77 @@
 (* Properties/C05.v - HTTP/2 and HTTP/3 codecs agree with their upstream reference codecs.
-   Only statements, `exact`, and Print Assumptions. *)
+   Only statements, `exact`, and Print Assumptions.
+   Models: Model/QuicVarint.v (quicvarint/varint.go). *)
 From ReqV Require Import Lib.Bytes Lib.BigEndian Model.QuicVarint Proofs.QuicVarintProofs.
 Open Scope N_scope.
+
+(* ---------- QUIC variable-length integers (RFC 9000 §16) ---------- *)
+
+(* Len: exact ranges; >= 2^62 is the panic branch; Append writes exactly Len bytes *)
+Theorem C05_varint_len : forall v,
+  (v < 2 ^ 6 -> vi_len v = Some 1) /\ (2 ^ 6 <= v < 2 ^ 14 -> vi_len v = Some 2) /\
+  (2 ^ 14 <= v < 2 ^ 30 -> vi_len v = Some 4) /\ (2 ^ 30 <= v < 2 ^ 62 -> vi_len v = Some 8) /\
+  (2 ^ 62 <= v -> vi_len v = None) /\
+  (forall l, vi_len v = Some l -> exists e, vi_append v = Some e /\ lenN e = l).
+Proof. exact varint_len. Qed.
+Print Assumptions C05_varint_len.
 
 Theorem C05_varint_out_of_range : forall v, 2 ^ 62 <= v -> vi_len v = None /\ vi_append v = None.
 Proof. exact varint_out_of_range. Qed.
 Print Assumptions C05_varint_out_of_range.
+
+(* decode (encode v ++ rest) = (v, rest), for both decoders (Parse on a slice, Read on a reader) *)
+Theorem C05_varint_roundtrip : forall v rest, v < 2 ^ 62 ->
+  exists e l, vi_append v = Some e /\ vi_len v = Some l /\ lenN e = l /\
+              vi_parse (e ++ rest) = ViOk v l /\ vi_read (e ++ rest) = Some (v, rest).
+Proof. exact varint_roundtrip. Qed.
+Print Assumptions C05_varint_roundtrip.
+
+(* no accepted encoding of v is shorter than the one Append writes *)
+Theorem C05_varint_minimal : forall s v n l,
+  vi_parse s = ViOk v n -> vi_len v = Some l -> l <= n.
+Proof. exact varint_minimal. Qed.
+Print Assumptions C05_varint_minimal.
+
+(* every 1/2/4/8-byte form that can hold v - minimal or not, as written by AppendWithLen - decodes
+   to v; the empty prefix is io.EOF and every other strict prefix io.ErrUnexpectedEOF *)
+Theorem C05_varint_decode_total : forall v len, vi_lenok len -> v < 2 ^ (8 * len - 2) ->
+  exists e, vi_append_with_len v len = Some e /\ lenN e = len /\
+    (forall rest, vi_parse (e ++ rest) = ViOk v len /\ vi_read (e ++ rest) = Some (v, rest)) /\
+    vi_parse (firstn 0 e) = ViEOF /\
+    (forall k, (0 < k)%nat -> (k < N.to_nat len)%nat ->
+       vi_parse (firstn k e) = ViUnexpectedEOF /\ vi_read (firstn k e) = None).
+Proof. exact varint_decode_total. Qed.
+Print Assumptions C05_varint_decode_total.
+
+(* ... and the decoder accepts nothing else: an accepted input starts with the n-byte form of the
+   value returned, n in {1,2,4,8}, value < 2^62 *)
+Theorem C05_varint_accepts_only_forms : forall s v n, vi_parse s = ViOk v n ->
+  vi_lenok n /\ v < 2 ^ (8 * n - 2) /\ v < 2 ^ 62 /\
+  exists rest, s = vi_form n v ++ rest /\ vi_append_with_len v n = Some (vi_form n v).
+Proof. exact varint_accepts_only_forms. Qed.
+Print Assumptions C05_varint_accepts_only_forms.
+
+(* the three panics of AppendWithLen, exactly *)
+Theorem C05_varint_append_with_len_rejects : forall v len,
+  vi_append_with_len v len = None <->
+  (~ vi_lenok len \/ 2 ^ 62 <= v \/ exists l, vi_len v = Some l /\ len < l).
+Proof. exact vi_append_with_len_rejects. Qed.
+Print Assumptions C05_varint_append_with_len_rejects.
+
+Theorem C05_varint_read_is_parse : forall s,
+  vi_read s = match vi_parse s with ViOk v n => Some (v, skipn (N.to_nat n) s) | _ => None end.
+Proof. exact vi_read_parse. Qed.
+Print Assumptions C05_varint_read_is_parse.
+
+Theorem C05_varint_prefix_free : forall s1 s2 x v1 v2,
+  vi_parse s1 = ViOk v1 (lenN s1) -> vi_parse s2 = ViOk v2 (lenN s2) -> s2 = s1 ++ x ->
+  x = [] /\ v1 = v2.
+Proof. exact varint_prefix_free. Qed.
+Print Assumptions C05_varint_prefix_free.
+
+(* non-vacuity *)
+Example C05_nonvacuous :
+  vi_append 16384 = Some (hx "80004000") /\ vi_parse (hx "80004000ff") = ViOk 16384 4 /\
+  vi_append_with_len 37 8 = Some (hx "c000000000000025") /\ vi_lenok 8 /\
+  vi_parse (hx "c000000000000025") = ViOk 37 8 /\ vi_parse (hx "c0000000000000") = ViUnexpectedEOF.
+Proof. vm_compute. unfold vi_lenok. repeat split. tauto. Qed.
